@@ -184,7 +184,24 @@ func (fe *FuncEnc) inline(f *Frame, callee *ssa.Function, name string, args []Te
 
 // havocMods replaces every component of mods by a fresh symbol (allocation sets grow monotonically).
 func (fe *FuncEnc) havocMods(st *State, mods map[string]bool, tag string) {
+	fe.havocModsDirty(st, mods, nil, tag)
+}
+
+// havocModsDirty: as havocMods; dirty == nil means "no fresh-only information" (every slice/map component may be written anywhere).
+func (fe *FuncEnc) havocModsDirty(st *State, mods map[string]bool, dirty map[string]bool, tag string) {
 	preAlloc := map[string]Term{}
+	if dirty != nil {
+		for c := range mods {
+			if as := freshFrameAlloc(c); as != "" && !dirty[c] {
+				if _, done := preAlloc[as]; !done {
+					if _, known := fe.eng.compSorts[as]; known {
+						preAlloc[as] = fe.atom(fe.comp(st, as, arrSort(SInt, SBool)))
+						st.heap[as] = preAlloc[as]
+					}
+				}
+			}
+		}
+	}
 	for c := range mods {
 		if owner, ok := fe.eng.compOwner[c]; ok && !fe.eng.notCtorOnly[c] {
 			if _, done := preAlloc[owner]; !done {
@@ -207,6 +224,12 @@ func (fe *FuncEnc) havocMods(st *State, mods map[string]bool, tag string) {
 		if owner, ok := fe.eng.compOwner[c]; ok && !fe.eng.notCtorOnly[c] {
 			fe.ctorFrame(st, c, old, nw, preAlloc[owner])
 			fe.assumes["fields only ever written through a pointer to an object allocated in the same invocation (struct literals) keep their value in pre-existing objects across calls and loops (checked syntactically over the whole program)"] = true
+		}
+		if as := freshFrameAlloc(c); as != "" && dirty != nil && !dirty[c] {
+			if a, ok := preAlloc[as]; ok {
+				fe.ctorFrame(st, c, old, nw, a)
+				fe.assumes["slice and map components that a callee (with everything it can call) writes only through values it allocated itself keep their contents in pre-existing arrays and maps (syntactic fresh-only analysis)"] = true
+			}
 		}
 		if strings.HasPrefix(c, "A_") {
 			fe.assume(tBool(true), Term{fmt.Sprintf("(forall ((r Int)) (! (=> (select %s r) (select %s r)) :pattern ((select %s r))))", old.S, nw.S, old.S), SBool})
@@ -234,7 +257,7 @@ func (fe *FuncEnc) freshResults(callee *ssa.Function, st *State, path Term, tag 
 
 func (fe *FuncEnc) callHavoc(f *Frame, callee *ssa.Function, name string, args []Term, st *State, path Term, pos token.Pos) []Term {
 	short := name[strings.LastIndex(name, ".")+1:]
-	fe.havocMods(st, fe.eng.modsetOf(callee), short)
+	fe.havocModsDirty(st, fe.eng.modsetOf(callee), fe.eng.dirtyOf(callee), short)
 	return fe.freshResults(callee, st, path, short)
 }
 
@@ -269,7 +292,7 @@ func (fe *FuncEnc) callByContract(f *Frame, callee *ssa.Function, name string, c
 			fe.emit("dec.call", fe.srcLabel(pos, "call"), path, goal, "recursion terminates: measure of "+name+" below the measure of "+fe.name, pos)
 		}
 	}
-	fe.havocMods(st, fe.eng.modsetOf(callee), short)
+	fe.havocModsDirty(st, fe.eng.modsetOf(callee), fe.eng.dirtyOf(callee), short)
 	res := fe.freshResults(callee, st, path, short)
 	defer func() {
 		if f.parent == nil {
@@ -534,12 +557,16 @@ func (fe *FuncEnc) callIfaceContract(f *Frame, con *Contract, ifaceName, method 
 		fe.emit("pre", fe.srcLabel(pos, "call")+"."+rq.Label, path, t, ifaceName+"."+method+" requires "+rq.Text, pos)
 	}
 	mods := map[string]bool{}
+	dirty := map[string]bool{}
 	for _, m := range impls {
 		for c := range fe.eng.modsetOf(m) {
 			mods[c] = true
 		}
+		for c := range fe.eng.dirtyOf(m) {
+			dirty[c] = true
+		}
 	}
-	fe.havocMods(st, mods, method)
+	fe.havocModsDirty(st, mods, dirty, method)
 	var res []Term
 	for i := 0; i < sig.Results().Len(); i++ {
 		r := fe.fresh("dyn_"+method, fe.eng.sorts.sortOf(sig.Results().At(i).Type()))
